@@ -90,6 +90,28 @@ fn main() {
             sharded(n, move |s| re::run_spellings(seed, s, cases, per))
         }
         "c03-dots" => re::run_dot_enumeration(),
+        "c02-registration" => {
+            let seqs = if quick { 150 } else { 12_000 };
+            sharded(n, move |s| vmon::c02::run(seed, s, seqs, true))
+        }
+        "c06-openapi" => {
+            let (tables, perms, cross) = if quick { (60, 3, 8) } else { (1500, 4, 60) };
+            sharded(n, move |s| vmon::c06::run(seed, s, tables, perms, cross))
+        }
+        "c06-hash" => {
+            // child of c06-openapi: print "<version> <hash>" for one table of shard 0
+            let t: u64 = args
+                .extra
+                .iter()
+                .position(|a| a == "--table")
+                .and_then(|i| args.extra.get(i + 1))
+                .and_then(|s| s.parse().ok())
+                .unwrap_or(0);
+            for (v, h) in vmon::c06::table_hashes(seed, 0, t) {
+                println!("{v} {h}");
+            }
+            return;
+        }
         "c05-exhaustive" => {
             let ns = n as u64;
             sharded(n, move |s| vmon::c05::run_exhaustive(s, ns))
